@@ -114,7 +114,11 @@ func jobsFor(prop, tier string) []Job {
 			js = append(js, mk("crash-w2", params("W", 2), 1, tears, false, 0),
 				mk("crash-w0-2crashes", params("W", 0), 2, false, false, 0),
 				mk("crash-w0-nodrain-eager", params("W", 0, "DRAIN", 0, "IB", 0), 1, tears, true, 0),
-				mk("crash-w1-sched1", params("W", 1, "MEMTHR", 60, "DRAIN", 0), 1, tears, false, 1))
+				func() Job {
+					j := mk("crash-w4-sched1", params("W", 4, "DRAIN", 0, "ZONE", 2, "POSTN", 1), 1, tears, false, 1)
+					j.ZoneOnly = true // schedules explored in the workload phase, recovery under the default schedule
+					return j
+				}())
 		}
 		{
 			// Close with flushes pending (flusher slower than the writers): schedules and crash
@@ -258,7 +262,11 @@ func jobsFor(prop, tier string) []Job {
 			js = append(js, cr)
 		}
 		if thorough {
-			js = append(js, mk("conc-1w2c-dev2", params("WRITERS", 1, "COMMITS", 2, "IBMAX", 2), 2, false),
+			js = append(js, func() Job {
+				j := mk("conc-1w2c-dev2", params("WRITERS", 1, "COMMITS", 2, "IBMAX", 0, "AFTERACK", 1), 2, false)
+				j.Cap = 1500 * time.Second
+				return j
+			}(),
 				mk("conc-2w2c-dev1", params("WRITERS", 2, "COMMITS", 2, "IBMAX", 1), 1, false),
 				mk("conc-1w3c-closeearly-dev1", params("WRITERS", 1, "COMMITS", 3, "IBMAX", 1, "CLOSE_EARLY", 1), 1, false))
 		}
@@ -288,7 +296,6 @@ func jobsFor(prop, tier string) []Job {
 				mk("c09-1r-2x2", params("R", 1, "T", 2, "E", 2, "L0T", 1, "RATIO", 2)),
 				mk("c09-1r-2+1-k2", params("R", 1, "T", 2, "ES", 21, "L0T", 1, "RATIO", 2, "KL2", 2, "QKL", 2)),
 				mk("c09-1r-2+1-k2first", params("R", 1, "T", 2, "ES", 21, "L0T", 1, "RATIO", 2, "KLMASK", 1)),
-				mk("c09-2r-2x1-l1merge-wm", params("R", 2, "T", 2, "E", 1, "L0T", 1, "RATIO", 2)),
 				mk("c09-1r-2+1-ts99", params("R", 1, "T", 2, "ES", 21, "L0T", 1, "RATIO", 2, "MAXTS", 99)),
 			)
 		}
